@@ -4,8 +4,8 @@
 cd "$(dirname "$0")"
 out=${1:-/tmp/apalache-out}
 mod=${2:-ApaPending}
-# the parser unpacks its standard modules into java.io.tmpdir: keep that next to the output, removed afterwards
-mkdir -p $out.tmp; export JAVA_TOOL_OPTIONS="-Djava.io.tmpdir=$out.tmp"
+# the launcher makes a SANY* directory under $TMPDIR for every run: keep that next to the output, removed afterwards
+mkdir -p $out.tmp; export TMPDIR=$out.tmp
 timeout 900 apalache-mc check --out-dir=$out --cinit=CInit --init=Init --inv=IndInv --length=0 $mod.tla > $out.1.log 2>&1; a=$?
 timeout 900 apalache-mc check --out-dir=$out --cinit=CInit --init=IndInv --inv=IndInv --length=1 $mod.tla > $out.2.log 2>&1; b=$?
 grep -h -E "The outcome is|Checker reports|EXITCODE" $out.1.log $out.2.log
